@@ -308,14 +308,14 @@ pub fn run(ctx: &Ctx) -> i32 {
     let mut rep = Report::default();
     #[cfg(feature = "real")]
     {
-        let g = Group { name: "dup-real", cases: ctx.tier.pick(250, 15_000), budget_s: ctx.tier.pick(30.0, 600.0), exhaustive: false };
+        let g = Group { name: "dup-real", cases: ctx.tier.pick(250, 15_000), budget_s: ctx.tier.pick(30.0, 330.0), exhaustive: false };
         run_group(ctx, &mut rep, &g, |_, seed, trace| dup_case(seed, Lane::Real, trace));
     }
-    let g = Group { name: "dup-null", cases: ctx.tier.pick(500, 30_000), budget_s: ctx.tier.pick(25.0, 500.0), exhaustive: false };
+    let g = Group { name: "dup-null", cases: ctx.tier.pick(500, 30_000), budget_s: ctx.tier.pick(25.0, 280.0), exhaustive: false };
     run_group(ctx, &mut rep, &g, |_, seed, trace| dup_case(seed, Lane::Null, trace));
-    let g = Group { name: "insensitivity", cases: ctx.tier.pick(300, 15_000), budget_s: ctx.tier.pick(25.0, 400.0), exhaustive: false };
+    let g = Group { name: "insensitivity", cases: ctx.tier.pick(300, 15_000), budget_s: ctx.tier.pick(25.0, 220.0), exhaustive: false };
     run_group(ctx, &mut rep, &g, |_, seed, trace| insensitivity_case(seed, trace));
-    let g = Group { name: "reset-token", cases: ctx.tier.pick(300, 10_000), budget_s: ctx.tier.pick(15.0, 200.0), exhaustive: false };
+    let g = Group { name: "reset-token", cases: ctx.tier.pick(300, 10_000), budget_s: ctx.tier.pick(15.0, 110.0), exhaustive: false };
     run_group(ctx, &mut rep, &g, |_, seed, trace| reset_case(seed, trace));
     finish(
         ctx,
